@@ -13,6 +13,7 @@ canonical.  Obligations (which make the hypothesis hold for the callers):
     that is itself verified to sanitise a dirty argument (masked, apply_mask).
 Interval facts (value <= MASK, index != LIMBS-1) come from vcheck.absint.
 """
+import re
 from .. import absint, ir, total
 from ..engine import Report
 
@@ -496,11 +497,25 @@ def run(ctx, config="all", scope=None, label=""):
         for r in rows:
             if (fn, r["event"]) not in used_rows and (scope is None or (fn in prog.bodies and scope(prog.bodies[fn]))):
                 if fn in prog.bodies:
-                    rep.violation("stale-row:%s|%s" % (fn.replace("crate::", ""), r["event"]), "",
-                                  "table row matches no event any more (stale table): the construct it excused is gone")
+                    # not a property violation: the construct the row excused is gone or is now proven.  Reported as a
+                    # note (tools/meta.py lists stale rows); a row can never excuse anything but its own key
+                    rep.note("stale row: %s|%s matches no event any more" % (fn.replace("crate::", ""), r["event"]))
     rep.analysed = {"build_config": config, "functions_touching_limbs": n_fn, "source_events": n_src,
                     "configurations": ["%d,%d" % c for c in cfgs], "label": label}
     return rep
+
+
+# foreign iterator machinery over slices / arrays / ranges: produces references to the elements, never values
+ITERATION_PLUMBING = re.compile(
+    r"(<I as core::iter::traits::collect::IntoIterator>::into_iter"
+    r"|core::slice::<impl \[T\]>::(iter|iter_mut)"
+    r"|core::iter::traits::iterator::Iterator::(zip|enumerate|rev)"
+    r"|<core::(iter::adapters::(zip::Zip|enumerate::Enumerate|rev::Rev)|slice::iter::(Iter|IterMut)|ops::range::Range)<.*> as "
+    r"core::iter::traits::(iterator::Iterator|double_ended::DoubleEndedIterator)>::(next|next_back)"
+    r"|core::iter::range::<impl core::iter::traits::iterator::Iterator for core::ops::range::Range<A>>::next"
+    r"|core::array::<impl core::iter::traits::collect::IntoIterator for &.*>::into_iter"
+    r"|core::array::<impl \[T; N\]>::(iter|iter_mut|as_slice|as_mut_slice)"
+    r"|core::slice::<impl \[T\]>::len)$")
 
 
 SOURCE_KINDS = ("borrow-limbs", "write-limbs", "struct-literal", "transmute", "unsafe-limbs-mut")
@@ -522,7 +537,7 @@ def row_side_conditions(prog, b, cfgs, masks, row, sanitizer, unsafe_mut):
             for blk in blocks:
                 conds = total.dominating_conditions(v, blk)
                 for req in row["requires"]:
-                    if (req["cond"], req["truth"]) not in conds:
+                    if not total.cond_holds(req["cond"], req["truth"], conds):
                         return "source at %s is not dominated by %s==%s (configuration %s)" % (
                             v.where(blk), req["cond"], req["truth"], cfg)
         if row.get("only_calls"):
@@ -531,6 +546,8 @@ def row_side_conditions(prog, b, cfgs, masks, row, sanitizer, unsafe_mut):
                 if bi not in ca.ai.entry:
                     continue
                 name = ir.callee_name(t["fn"]) or "?"
+                if ITERATION_PLUMBING.match(name):
+                    continue     # how the limbs are walked (index loop, iter / iter_mut / zip / enumerate) is not prescribed
                 if not any(name == a or name.endswith(a) for a in allowed):
                     return "unexpected call to %s at %s (row allows only %s)" % (name, v.where(bi), ", ".join(allowed))
     return ""
